@@ -362,3 +362,58 @@ class C14(Monitor):
 
 
 MONITORS["C14"] = [Avail, C14]
+
+
+# ---------------------------------------------------------------- C11 (lock-step part)
+class C11(Monitor):
+    prop = "C11"
+
+    def __init__(self, w):
+        self.calls = w.delay_calls
+
+    def after(self, w, obs):
+        out = []
+        op = obs["op"]
+        if op[0] == "put" and w.spec.kind == "buffer":
+            d = w.delay_calls - self.calls
+            if d != 1:
+                out.append(V("C11", "delay-drawn-once", w, "the delay callable was consulted %d times for one put" % d, n=d))
+        self.calls = w.delay_calls
+        if op[0] == "get" and obs.get("item") is not None and w.spec.kind == "buffer":
+            x = obs["item"]
+            if w.now < x.t_put + x.delay - EPS:
+                out.append(V("C11", "not-before-t+d", w, "%r put at %s with delay %s was retrieved at %s" % (x.obj, x.t_put, x.delay, w.now),
+                             via="get"))
+        if w.spec.kind == "buffer":
+            pr = w.pub_ready()
+            ids = {id(o) for o in pr} if pr is not None else set()
+            for x in w.inside():
+                due = x.t_put + x.delay
+                if id(x.obj) in ids and w.now < due - EPS:
+                    out.append(V("C11", "not-before-t+d", w, "%r put at %s with delay %s is offered as ready at %s" % (x.obj, x.t_put, x.delay, w.now),
+                                 via="ready_items"))
+                    break
+                if pr is not None and not events_now(w.env) and w.now >= due - EPS and id(x.obj) not in ids:
+                    out.append(V("C11", "retrievable-from-t+d", w, "%r put at %s with delay %s is still not ready at the end of instant %s" % (x.obj, x.t_put, x.delay, w.now),
+                                 via="ready_items"))
+                    break
+        occ = w.pub_occupancy()
+        if occ is not None and occ != w.held():
+            out.append(V("C11", "occupancy-counts-all", w, "occupancy reported %r, items inside (in transit + ready) %d" % (occ, w.held()), op=op[0]))
+        return out
+
+
+MONITORS["C11"] = [C11]
+MONITORS["C07"] = []
+
+
+class C07(Monitor):
+    """keeps 'a used / a cancelled token of each side exists' in the hashed state, so that the ill-formed
+    calls on dead tokens are tried in every store state and not only where the shortest history has one"""
+    prop = "C07"
+
+    def state(self, w):
+        return tuple(sorted({(t.side, t.status) for t in w.toks if not t.live}))
+
+
+MONITORS["C07"] = [C07]
